@@ -17,7 +17,8 @@ func init() {
 		ID:    "C13",
 		Level: "exploration",
 		Rule: "Alloc for 13 built-in + 13 named element types x channel counts x every 0<=L<=K up to a small bound plus seeded larger K (up to 8192), checked for shape, bit depth = 8*sizeof(T), zero fill over the whole capacity (through the hook and through Slice(0,K)), " +
-			"and groups of 2..32 simultaneously live allocations checked for disjoint address intervals and stamp isolation; distinct = distinct (type,C,L,K) tuples and distinct group descriptors; non-trivial = capacity > 0",
+			"and groups of 2..32 simultaneously live allocations checked for disjoint address intervals and stamp isolation; distinct = distinct (type,C,L,K) tuples and distinct group descriptors; non-trivial = capacity > 0; " +
+			"also: round total capacities, allocations of 2^18..2^22 samples, named types whose name ends in other digits, the source re-read after the grown destination was overwritten",
 		Assume: []string{"address intervals come from the verif hook; every allocation of a group is kept alive so addresses are not recycled"},
 		Plan:   func(tier string) []Batch { return split("alloc", 8, 600) },
 		Run:    runC13,
